@@ -269,6 +269,23 @@ new site changes the list and this theorem stops checking. -/
 theorem panic_site_inventory :
     Generated.panicSites = ["storage/dataset.go:errorsResponseToPartitionBatchResult:uuid.Must:1", "storage/dataset.go:getSearchQueryNodes:rand.Intn:1", "storage/dataset.go:groupBatchItemsByPartition:uuid.Must:1", "storage/partition.go:randomNodeId:rand.Intn:1", "storage/raft/group.go:run:Fatal:3", "utils/priority_queue.go:Peek:panic:1", "utils/priority_queue.go:Pop:panic:1", "utils/priority_queue.go:Push:panic:1", "utils/priority_queue.go:Reverse:panic:1", "utils/priority_queue.go:ToSlice:panic:1", "utils/uuid.go:UuidMod:%:3"] := by decide
 
+/-! ## levels: a wire field the client controls -/
+
+/-- **no client-chosen level reaches the apply loop**: a handler that draws the level of every item
+it proposes (regenerated fact) proposes only levels `setLevel` can take, whatever 32-bit value the
+request carried — for every drawn level in the range of `RandomLevel` -/
+theorem client_level_never_applied (client drawn : Int) (hd : 0 ≤ drawn ∧ drawn ≤ 1024) :
+    Generated.writeLevelsDrawnByHandler = true ∧
+    setLevelOutcome (proposedLevel Generated.writeLevelsDrawnByHandler client drawn) = .ok := by
+  refine ⟨by decide, ?_⟩
+  have : Generated.writeLevelsDrawnByHandler = true := by decide
+  rw [this]
+  simp [proposedLevel, setLevelOutcome, levelOk, hd.1, hd.2]
+
+/-- a handler that keeps a non-zero client level (seeded change C12-D) lets a request poison the
+log: level -7 is proposed as it came and `setLevel` panics in the apply loop of every replica -/
+theorem kept_client_level_poisons : setLevelOutcome (proposedLevel false (-7) 3) = .poison := by decide
+
 /-! ## non-vacuity -/
 
 example : (create 3 ⟨4, 2, 2, 1⟩).1 = .ok := by decide
